@@ -13,6 +13,7 @@ pub mod c11;
 pub mod c12;
 pub mod c13;
 pub mod c14;
+pub mod c19;
 pub mod c20;
 
 pub struct Prop {
@@ -39,6 +40,7 @@ pub fn all() -> Vec<Prop> {
         Prop { id: "C13", run: c13::run, subs: c13::subs, rule: c13::RULE, assumptions: c13::ASSUMPTIONS },
         Prop { id: "C20", run: c20::run, subs: c20::subs, rule: c20::RULE, assumptions: c20::ASSUMPTIONS },
         Prop { id: "C04", run: c04::run, subs: c04::subs, rule: c04::RULE, assumptions: c04::ASSUMPTIONS },
+        Prop { id: "C19", run: c19::run, subs: c19::subs, rule: c19::RULE, assumptions: c19::ASSUMPTIONS },
     ]
 }
 
